@@ -174,6 +174,76 @@ func observeConstant(tp *onnx.TensorProto) (obs string) {
 	return "(OOk [" + tval(out["y"]) + "])"
 }
 
+// ConstantOfShape decodes its `value` attribute with the same decoder: a one-element value (rank 0 or
+// [1]) of every element type must fill the requested shape with exactly that value and type; a proto
+// the decoder refuses must make the node fail, not crash
+var cosRes = goOnlyResult{Stream: "C12_constant_of_shape", Rule: "every generated proto that TensorFromProto refuses, or decodes to exactly one element: as the `value` attribute of a ConstantOfShape node applied to the shape [2]: refused protos are refused (error, no panic); a one-element value yields a tensor of shape (2), the value's element type, both elements bit-identical to the decoded value (for -0 and NaN values only acceptance is required: the fill is an addition to zero; a bool value may be refused)", Violations: []string{}}
+
+func observeCOS(tp *onnx.TensorProto) {
+	dec, derr := func() (t tensor.Tensor, err error) {
+		defer func() {
+			if r := recover(); r != nil {
+				err = fmt.Errorf("panic")
+			}
+		}()
+		return onnx.TensorFromProto(proto.Clone(tp).(*onnx.TensorProto))
+	}()
+	if derr == nil && (dec == nil || numel([]int(dec.Shape())) != 1) {
+		return
+	}
+	cosRes.N++
+	obs := observeWithOutputs("ConstantOfShape", []*onnx.AttributeProto{{Name: "value", Type: onnx.AttributeProto_TENSOR, T: proto.Clone(tp).(*onnx.TensorProto)}}, []string{"y"},
+		[]tensor.Tensor{tensor.New(tensor.WithShape(1), tensor.WithBacking([]int64{2}))})
+	bad := ""
+	switch {
+	case obs == "OPanic":
+		bad = "panic"
+	case derr != nil && !strings.HasPrefix(obs, "(OErr"):
+		bad = "a value the decoder refuses was accepted: " + clip(obs, 200)
+	case derr == nil && dec.Dtype() == tensor.Bool && strings.HasPrefix(obs, "(OErr"):
+		// bool fill values are refused: an element type the operator does not support, reported as an error
+	case derr == nil && loosely(dec):
+		// -0 and NaN payloads: the fill is computed as 0 + value, which keeps the value but not the sign of a
+		// zero or a NaN's payload; only the outcome class is required
+		if !strings.HasPrefix(obs, "(OOk") {
+			bad = "a well-formed value was not accepted: " + clip(obs, 200)
+		}
+	case derr == nil:
+		one := tval(dec) // {| dt := D; sh := ...; pl := [v] |}
+		i, j := strings.Index(one, "pl := ["), strings.LastIndex(one, "]")
+		d0 := strings.Index(one, "dt := ")
+		d1 := strings.Index(one, ";")
+		if i < 0 || j < i || d0 < 0 || d1 < d0 {
+			return
+		}
+		v := one[i+len("pl := [") : j]
+		want := fmt.Sprintf("(OOk [Some {| %s; sh := [2]%%nat; pl := [%s;%s] |}])", one[d0:d1], v, v)
+		if obs != want {
+			bad = fmt.Sprintf("got %s want %s", clip(obs, 200), clip(want, 200))
+		}
+	}
+	if bad != "" && len(cosRes.Violations) < 10 {
+		cosRes.Violations = append(cosRes.Violations, fmt.Sprintf("ConstantOfShape with value %s: %s", clip(tprotoGallina(tp), 300), bad))
+	}
+}
+
+func loosely(t tensor.Tensor) bool {
+	var f float64
+	switch d := t.Data().(type) {
+	case float32:
+		f = float64(d)
+	case float64:
+		f = d
+	case []float32:
+		f = float64(d[0])
+	case []float64:
+		f = d[0]
+	default:
+		return false
+	}
+	return f != f || (f == 0 && math.Signbit(f))
+}
+
 type tinfo struct {
 	code  int32
 	width int
@@ -283,6 +353,7 @@ func genC12(dir, tier string, seed int64) {
 	emit := func(tp *onnx.TensorProto, tag string) {
 		g := tprotoGallina(tp)
 		cwC.write(fmt.Sprintf("  {| pc_tp := %s; pc_obs := %s |}", g, observeConstant(tp)))
+		observeCOS(tp)
 		cwA.write(fmt.Sprintf("  {| pc_tp := %s; pc_obs := %s |}", g, observeDecode(proto.Clone(tp).(*onnx.TensorProto))))
 		cwB.write(fmt.Sprintf("  {| pc_tp := %s; pc_obs := %s |}", g, observeLoad(tp)))
 		count("variant", tag)
@@ -390,6 +461,10 @@ func genC12(dir, tier string, seed int64) {
 			}
 		}
 	}
+	// raw BOOL bytes other than 0 and 1: any non-zero byte is true (0x80..0xFF included)
+	for _, bs := range [][]byte{{0, 1, 2, 0x7f, 0x80, 0xff}, {0xff}, {0x80, 0}, {0xfe, 0x81, 0x40}} {
+		emit(&onnx.TensorProto{DataType: 9, Dims: []int64{int64(len(bs))}, RawData: bs}, "raw-bool-bytes")
+	}
 	// every other data_type code with each field populated / nothing populated
 	codes := []int32{0, 8, 10, 14, 15, 16, 17, 18, 19, 20, 99}
 	for _, code := range codes {
@@ -415,5 +490,7 @@ func genC12(dir, tier string, seed int64) {
 	cwA.close()
 	cwB.close()
 	cwC.close()
+	cosRes.Distinct = cosRes.N
+	meta.GoOnly = append(meta.GoOnly, cosRes)
 	_ = tensor.Float32
 }
